@@ -184,7 +184,7 @@ func VerifH01aTrieMatchesSpec() {
 		trie.Insert(s.cfg.Addr.VHost(), s.cfg)
 	}
 	rawHost, host := zzReqHost()
-	path := zzReqPath(2 + verifrt.Tier())
+	path := zzReqPath(2)
 	got, prefix := trie.Match(rawHost + path)
 	verifrt.Assert(zzAcceptable(sites, nil, host, path, got, prefix), "most-specific-site")
 	idx := -1
@@ -211,7 +211,7 @@ func VerifH01bOrderIndependent() {
 		rev.Insert(s.cfg.Addr.VHost(), s.cfg)
 	}
 	rawHost, _ := zzReqHost()
-	path := zzReqPath(2 + verifrt.Tier())
+	path := zzReqPath(2)
 	a, ap := fwd.Match(rawHost + path)
 	b, bp := rev.Match(rawHost + path)
 	verifrt.Assert(a == b && ap == bp, "order-independent")
